@@ -230,7 +230,6 @@ func doParsing(mp *msgParser) (err error) {
 	// Start parsing.
 	mp.fieldIndex++
 	xmlDataLen := 0
-	xmlDataMsg := false
 	mp.trailerBytes = []byte{}
 	mp.foundBody = false
 	mp.foundTrailer = false
@@ -239,7 +238,6 @@ func doParsing(mp *msgParser) (err error) {
 		if xmlDataLen > 0 {
 			mp.rawBytes, err = extractXMLDataField(mp.parsedFieldBytes, mp.rawBytes, xmlDataLen)
 			xmlDataLen = 0
-			xmlDataMsg = true
 		} else {
 			mp.rawBytes, err = extractField(mp.parsedFieldBytes, mp.rawBytes)
 		}
@@ -285,6 +283,10 @@ func doParsing(mp *msgParser) (err error) {
 		mp.msg.bodyBytes = mp.msg.bodyBytes[:len(mp.msg.bodyBytes)-len(mp.trailerBytes)]
 	}
 
+	// The number of fields was estimated by counting SOH bytes. XML data may contain SOH bytes
+	// itself, so drop the unused (possibly stale) tail before adding up the field lengths.
+	mp.msg.fields = mp.msg.fields[:mp.fieldIndex+1]
+
 	length := 0
 	for _, field := range mp.msg.fields {
 		switch field.tag {
@@ -297,7 +299,7 @@ func doParsing(mp *msgParser) (err error) {
 	bodyLength, err := mp.msg.Header.getIntNoLock(tagBodyLength)
 	if err != nil {
 		err = parseError{OrigError: err.Error()}
-	} else if length != bodyLength && !xmlDataMsg {
+	} else if length != bodyLength {
 		err = parseError{OrigError: fmt.Sprintf("Incorrect Message Length, expected %d, got %d", bodyLength, length)}
 	}
 
